@@ -62,6 +62,9 @@ func TestC15_Histories(t *testing.T) {
 		c := genClientCase(rt, 3, 25)
 		c.ConnCloseErr = rapid.IntRange(0, 3).Draw(rt, "connCloseErr") == 0
 		c.AgentCloseErr = rapid.IntRange(0, 3).Draw(rt, "agentCloseErr") == 0
+		if c.ConnCloseErr || c.AgentCloseErr {
+			c.CloseErrKind = rapid.IntRange(0, 7).Draw(rt, "closeErrKind")
+		}
 		// end with transactions in flight, then 1..3 Close calls and closed-state probes
 		for i := 0; i < rapid.IntRange(0, 3).Draw(rt, "late"); i++ {
 			c.Ops = append(c.Ops, hop{Op: rapid.SampledFrom([]string{"start", "do"}).Draw(rt, "lateOp"), ID: 10 + i, Size: 28})
